@@ -23,7 +23,8 @@ def variant(cfg):
     defaults, the representation of the name argument."""
     h = cfg['n'] * 7 + cfg['disc'] * 3 + cfg['retry'] + (cfg['fin'] + 1) * 5 + (1 if cfg.get('deep') else 0)
     return {'mark': ('all', 'last', 'tail')[h % 3],                    # FinalBlockId on every Data / only on the final one / on the last two
-            'empty': (h // 3) % 4 == 1,                                  # the segment n-1 (or the whole object) has empty content
+            # the segment n-1 (or the whole object) has empty content: an empty Content element / no Content element at all
+            'empty': ((h // 3) % 4 == 1) and ('empty', 'absent')[(h // 12) % 2],
             'default_retry': cfg['retry'] == 3 and (h // 2) % 2 == 0,     # retry_times omitted (default 3)
             'default_timeout': (h // 5) % 5 == 2,                        # timeout omitted (default 4000 ms)
             'name_repr': ('str', 'list', 'wire', 'iter', 'tuple', 'wirebuf')[(h // 7 + h) % 6]}
@@ -95,7 +96,7 @@ class Scenario:
     def content_of(self, s):
         """content of segment s (-2: the unsegmented object)"""
         if self.var['empty'] and (s == -2 or s == self.cfg['n'] - 1):
-            return b''
+            return b'' if self.var['empty'] == 'empty' else None
         return b'W' if s == -2 else b'S%d' % s
 
     def decode_content(self, c):
